@@ -2697,6 +2697,10 @@ class SX:
         if name in ('min', 'max') and len(args) == 1 and isinstance(args[0], Seq) and not kwargs:
             nm = f'{name}({args[0].path})'
             return [(st, self.typed_atom(nm, args[0].elem, nm))]
+        if name == 'clip' and len(args) == 3 and all(isinstance(a, (N, Dyn)) for a in args):
+            # numpy.clip(x, lo, hi) = min(max(x, lo), hi) as a number - but a numpy scalar as an object
+            inner = self.ctx.call('max', [args[0].term, args[1].term])
+            return [(st, N(self.ctx.call('min', [inner, args[2].term]), 'numpy'))]
         if name in ('min', 'max') and len(args) >= 2:
             if all(isinstance(a, Q) for a in args):
                 units = {a.unit.key() if a.unit else None for a in args}
@@ -2860,6 +2864,9 @@ class SX:
             return Bv(any(c == 'UnitBase' or (c in self.model.classes and self.model.is_subclass(obj.kind, c))
                           for c in names))
         if isinstance(obj, N):
+            if obj.py == 'numpy' and ({'float', 'int'} & set(names)):
+                # a numpy scalar: numpy.float64 is a float, numpy.int64 is NOT an int - which one depends on the argument's type
+                return Bsym(G('opaque', (f'numpy-scalar-is-python-number:{self.show(obj)[:50]}',)))
             if 'float' in names and 'int' in names:
                 return Bv(True)
             if obj.py in ('int', 'float'):
